@@ -1,1 +1,71 @@
-From PC Require Import Model.VConstraint.
+(* C05 — intersection, union and difference of version constraints are exact set operations.
+   Model: Model/VConstraint.v.  Proofs: Proofs/RangeSpec.v, RangeAlg.v, RangeOps.v. *)
+From Coq Require Import List Bool NArith String.
+From PC Require Import Base.Cmp Base.Result Model.Pep440 Spec.Pep440Spec Model.VConstraint
+     Proofs.VersionFacts Proofs.RangeSpec Proofs.RangeAlg Proofs.RangeOps.
+Import ListNotations.
+
+(* The property at full strength (every constraint shape, the three operations), kept visible.
+   [regular_c v c]: v is regular for every bound of c; [wf_c]: bounds well-formed, ranges proper. *)
+Definition regular_c (v : version) (c : vc) : bool := forallb (regular1 v) (cbounds c).
+Definition wf_c (c : vc) : bool := forallb wf (cbounds c) && forallb proper (flatten c).
+Definition C05_full_statement : Prop :=
+  forall a b, wf_c a = true -> wf_c b = true ->
+  exists ci cu cd, intersect a b = Ok ci /\ union a b = Ok cu /\ difference a b = Ok cd /\
+    forall v, wf v = true -> regular_c v a = true -> regular_c v b = true ->
+    exists x y, allows a v = Ok x /\ allows b v = Ok y /\
+      allows ci v = Ok (x && y) /\ allows cu v = Ok (x || y) /\ allows cd v = Ok (x && negb y).
+
+(* Proved: on regular probes membership in a range-like is plain interval membership
+   (all PEP 440 adjustments of VersionRange.allows / Version.allows are invisible there). *)
+Theorem C05_allows_regular : forall r v, wf_rng r = true -> wf v = true -> regular_r v r = true ->
+  r_allows r v = mem r v.
+Proof. exact allows_regular. Qed.
+Print Assumptions C05_allows_regular.
+
+(* Proved: what the four bound comparisons answer means, for every regular probe. *)
+Theorem C05_allows_lower_spec : forall a b v, regular_r v a = true -> regular_r v b = true ->
+  (allows_lower a b = true -> above b v = true -> above a v = true) /\
+  (allows_lower a b = false -> above a v = true -> above b v = true).
+Proof. exact allows_lower_spec. Qed.
+Print Assumptions C05_allows_lower_spec.
+Theorem C05_allows_higher_spec : forall a b v,
+  wf_rng a = true -> wf_rng b = true -> regular_r v a = true -> regular_r v b = true ->
+  (allows_higher a b = true -> below b v = true -> below a v = true) /\
+  (allows_higher a b = false -> below a v = true -> below b v = true).
+Proof. exact allows_higher_spec. Qed.
+Print Assumptions C05_allows_higher_spec.
+Theorem C05_strictly_lower_spec : forall a b v,
+  wf_rng a = true -> regular_r v a = true -> regular_r v b = true ->
+  (is_strictly_lower a b = true -> below a v = true -> above b v = true -> False) /\
+  (is_strictly_lower a b = false -> below a v = true \/ above b v = true).
+Proof. exact strictly_lower_spec. Qed.
+Print Assumptions C05_strictly_lower_spec.
+
+(* Proved (partial: two VersionRange operands; union-valued operands and the union/difference
+   operations are covered by the correspondence stream and the oracle, not yet by a theorem):
+   the intersection is defined — the assertion in VersionRange.intersect is unreachable — and admits
+   a regular probe exactly when both operands do. *)
+Theorem C05_intersect_partial : forall lo hi i j lo' hi' i' j',
+  let a := RR lo hi i j in let b := RR lo' hi' i' j' in
+  wf_rng a = true -> wf_rng b = true -> proper a = true -> proper b = true ->
+  exists c, intersect (VOne a) (VOne b) = Ok c /\
+    forall v, wf v = true -> regular_r v a = true -> regular_r v b = true ->
+      allows c v = Ok (r_allows a v && r_allows b v).
+Proof. exact intersect_ranges_exact. Qed.
+Print Assumptions C05_intersect_partial.
+
+(* combining with the empty constraint *)
+Theorem C05_empty_identities : forall a,
+  intersect VEmpty a = Ok VEmpty /\ union VEmpty a = Ok a /\ difference VEmpty a = Ok VEmpty /\
+  (forall r, intersect (VOne r) VEmpty = Ok VEmpty) /\ (forall r, difference (VOne (RR (rmin r) (rmax r) (imin r) (imax r))) VEmpty = Ok (VOne (RR (rmin r) (rmax r) (imin r) (imax r)))).
+Proof. intros a. repeat split; reflexivity. Qed.
+Print Assumptions C05_empty_identities.
+
+(* non-vacuity: parsed operands meet the hypotheses, and the theorem's conclusion is what runs *)
+Example C05_example :
+  exists a b c, parse_single false ">=1.0,<2.0"%string = Err EParseConstraint /\
+    parse_single false ">=1.0"%string = Ok (VOne a) /\ parse_single false "<2.0"%string = Ok (VOne b) /\
+    wf_rng a = true /\ wf_rng b = true /\ proper a = true /\ proper b = true /\
+    intersect (VOne a) (VOne b) = Ok c /\ vc_str c = Ok ">=1.0,<2.0"%string.
+Proof. do 3 eexists. repeat split; vm_compute; reflexivity. Qed.
